@@ -9,5 +9,5 @@ cp /repo/go.sum harness/go.sum
 (cd extract && go1.26 build -o ../build/extract .)
 for f in $(cat facts.list 2>/dev/null); do ./build/extract -repo /repo -fact "$f" -out "lean/Interceptor/Gen/$f.lean"; done
 python3 genroot.py
-(cd lean && lake build Interceptor driver)
+(cd lean && lake build driver && (lake build Interceptor || echo 'WARNING: some proof modules do not build; the affected checks will report it'))
 echo setup ok
